@@ -64,7 +64,9 @@ def spring_cases(ctx, n_models, n_steps):
     xml, par = spring_xml(rng)
     sysm = mjcf.loads(xml)
     m = float(np.asarray(sysm.link.inertia.mass)[0]) + par['arm']
-    q0 = float(np.round(rng.uniform(-1, 1), 3)); v0 = float(np.round(rng.uniform(-1, 1), 3))
+    # joint coordinates are unwrapped multi-turn / multi-metre quantities: a third of the cases start beyond +-pi
+    qr = 1.0 if rng.random() < 0.67 else 6.5
+    q0 = float(np.round(rng.uniform(-qr, qr), 3)); v0 = float(np.round(rng.uniform(-1, 1), 3))
     step = jax.jit(lambda st, sysm=sysm: pipeline.step(sysm, st, jp.zeros(sysm.act_size())))
     st = jax.jit(lambda q, qd, sysm=sysm: pipeline.init(sysm, q, qd))(jp.array([q0]), jp.array([v0]))
     traj = [(q0, v0)]
@@ -125,7 +127,8 @@ def lin_cases(ctx, n_models, n_steps):
     xml, par = slides_xml(rng)
     sysm = mjcf.loads(xml)
     n = sysm.qd_size()
-    q0 = np.round(rng.uniform(-0.5, 0.5, size=n), 3); v0 = np.round(rng.uniform(-1, 1, size=n), 3)
+    qr = 0.5 if rng.random() < 0.67 else 6.5
+    q0 = np.round(rng.uniform(-qr, qr, size=n), 3); v0 = np.round(rng.uniform(-1, 1, size=n), 3)
     step = jax.jit(lambda st, sysm=sysm: pipeline.step(sysm, st, jp.zeros(sysm.act_size())))
     st = jax.jit(lambda q, qd, sysm=sysm: pipeline.init(sysm, q, qd))(jp.asarray(q0), jp.asarray(v0))
     M = np.asarray(st.mass_mx, dtype=np.float64)
@@ -183,10 +186,10 @@ def drift_case(rng, horizon_steps=64, dt0=1e-3, gen=None):
   from brax.io import mjcf
   o = dict(n_links=(1, 4), limits=0.0, damping=0.0, actuators=(0, 0), stiffness=0.4,
            custom={'matrix_inv_iterations': 0}, timestep=dt0)
-  o.update(gen or {})
+  o.update({k: v for k, v in (gen or {}).items() if k != 'q_range'})
   xml, meta = modelgen.gen_model(rng, **o)
   sys0 = mjcf.loads(xml)
-  q, qd = modelgen.rand_state(rng, sys0, q_range=1.0, qd_range=1.0)
+  q, qd = modelgen.rand_state(rng, sys0, q_range=(gen or {}).get('q_range', 1.0), qd_range=1.0)
   drifts = []
   e0 = None
   for lvl in range(3):
@@ -220,7 +223,9 @@ def drift_cases(ctx, n, seed_offset=0):
   # this process (chain then star, world-attached and free-rooted) — a stale per-layout cache would show here
   twins = [dict(n_links=(3, 3), stack=(1, 1), roots='world', topology=t) for t in ('chain', 'star')]
   twins += [dict(n_links=(3, 3), stack=(1, 1), roots='free', topology=t) for t in ('chain', 'star')]
-  gens = twins + [None] * max(0, n - len(twins))
+  # one model with springs on every joint started far from the rest position (|q| up to 5: beyond half a turn / 3 m)
+  far = [dict(n_links=(1, 2), stack=(1, 2), roots='world', stiffness=1.0, q_range=5.0)]
+  gens = twins + far + [None] * max(0, n - len(twins) - len(far))
   for g in gens:
     c = drift_case(rng, gen=g)
     cases.append(c)
